@@ -105,3 +105,25 @@ def run(ctx, spec):
         ctx.sample(name, {'workload': name, 'spec': repr(inner)[:80], 'program_head': [l[:110] for l in t['program'][:3]],
                           'release_head': [a[:80] for a in ctx.trace[0]['answers'][:3]],
                           'dev_head': [a[:80] for a in (ctx.trace[1]['answers'][:3] if len(ctx.trace) > 1 else [])]})
+
+
+def stages(tier, seed):
+    """thorough: Miri as a third execution configuration (debug assertions and overflow checks on, plus its UB checks) on small
+    field / conversion / Fq2 programs and on one pairing per entry point"""
+    if tier != 'thorough':
+        return []
+    from .. import stages as st
+    from .. import rm
+
+    def miri(exes):
+        progs = []
+        progs += st.capture_programs('c06', [('fq', 10), ('fr', 10)], ID, 'quick', seed, exes, limit_lines=12)
+        progs += st.capture_programs('c13', [('bytes', 31, 1), ('bytes', 32, 1), ('bytes', 64, 1), ('bytes', 65, 1), ('setbit', 0, 3)], ID, 'quick', seed, exes, limit_lines=16)
+        progs += st.capture_programs('c12', [('mix', 6)], ID, 'quick', seed, exes, limit_lines=12)
+        P = rm.jac_lit(rm.F1, rm.g1(0x1234567))
+        Q = rm.jac_lit(rm.F2, rm.g2(0x7654321))
+        for e in ('pair.pairing', 'pair.fast', 'pair.prepared'):
+            progs.append(('pairing/' + e, ['_ %s %s %s' % (e, P, Q)]))
+        return st.miri_programs('miri-third-configuration', progs, exes, timeout=2400)
+    miri.__name__ = 'miri-third-configuration'
+    return [miri]
